@@ -109,6 +109,8 @@ ATTR = {
     ("namer", "unloc_scaffolds"): (L("ovref"), "{0}.unloc_scaffolds", False),
     ("namer", "haplotype_lc_dict"): (("dict", "str", "str"), "{0}.haplotype_lc_dict", False),
     ("ovres", "tag"): (O("str"), "{0}.tag", False), ("ovres", "haplotype"): (O("str"), "{0}.haplotype", False), ("ovres", "rank"): ("int", "{0}.rank", False),
+    ("assembly", "name"): ("str", "{0}.name", False), ("assembly", "curated"): ("bool", "{0}.curated", False),
+    ("assembly", "scaffolds"): (L("scaffold"), "{0}.scaffolds", False),
     ("found", "fragment"): ("frag", "{0}.fragment", False), ("found", "scaffolds"): (L("ovref"), "{0}.scaffolds", False),
     ("found", "scaffold_count"): ("int", "(Int.ofNat {0}.scaffolds.length)", False),
     # overhang premises (heap kernels only: the templates read the store of OverlapResults)
@@ -120,7 +122,7 @@ ATTR = {
     ("ovres", "original_tags"): (O(L("str")), "{0}.originalTags", False),
 }
 # writable attributes: (type, attr) -> lean field
-FIELD = {("ovres", "start"): "start", ("ovres", "end"): "stop", ("ovres", "rows"): "rows", ("scaffold", "rows"): "rows", ("namer", "autosome_prefix"): "autosome_prefix", ("namer", "current_scaffold_name"): "current_scaffold_name", ("namer", "current_rank"): "current_rank", ("namer", "current_haplotype"): "current_haplotype", ("namer", "haplotig_n"): "haplotig_n", ("namer", "haplotig_scaffolds"): "haplotig_scaffolds", ("namer", "primary_haplotype"): "primary_haplotype", ("namer", "target_tags"): "target_tags", ("namer", "unloc_n"): "unloc_n", ("namer", "unloc_scaffolds"): "unloc_scaffolds", ("namer", "haplotype_lc_dict"): "haplotype_lc_dict"}
+FIELD = {("ovres", "start"): "start", ("ovres", "end"): "stop", ("ovres", "rows"): "rows", ("scaffold", "rows"): "rows", ("assembly", "name"): "name", ("assembly", "curated"): "curated", ("assembly", "scaffolds"): "scaffolds", ("namer", "autosome_prefix"): "autosome_prefix", ("namer", "current_scaffold_name"): "current_scaffold_name", ("namer", "current_rank"): "current_rank", ("namer", "current_haplotype"): "current_haplotype", ("namer", "haplotig_n"): "haplotig_n", ("namer", "haplotig_scaffolds"): "haplotig_scaffolds", ("namer", "primary_haplotype"): "primary_haplotype", ("namer", "target_tags"): "target_tags", ("namer", "unloc_n"): "unloc_n", ("namer", "unloc_scaffolds"): "unloc_scaffolds", ("namer", "haplotype_lc_dict"): "haplotype_lc_dict"}
 # labelling attributes of an OverlapResult written through a reference: python attribute -> (model field, python type, conversion of the value)
 # (`name` / `rank` cannot hold None in the model's structure: a None name is kept as the text "None", a None rank as 0 — neither can arise after
 #  make_scaffold_name, which always sets a str name and an int rank)
@@ -283,7 +285,7 @@ def assigned(stmts):
                     if isinstance(el, ast.Name):
                         add(el.id)
             if isinstance(n, ast.Call) and isinstance(n.func, ast.Attribute) and n.func.attr in (
-                    "pop", "append", "extend", "write", "seek", "read", "discard_start", "discard_end", "add_row", "add", "insert", "truncate"):
+                    "pop", "append", "extend", "write", "seek", "read", "discard_start", "discard_end", "add_row", "add", "insert", "truncate", "add_scaffold", "add_header_line"):
                 r = root_of(n.func.value)
                 if r:
                     add(r)
@@ -349,7 +351,7 @@ class Kernel:
             return f"(!({term}).isEmpty)"
         if ty == "int":
             return f"(decide ({term} ≠ 0))"
-        if isinstance(ty, tuple) and ty[0] == "opt" and (ty[1] in ("frag", "gap", "row", "scaffold", "ovres", "fastainfo", "scref", "ffref", "ovref", "lref") or (isinstance(ty[1], tuple) and ty[1][0] == "match")):
+        if isinstance(ty, tuple) and ty[0] == "opt" and (ty[1] in ("frag", "gap", "row", "scaffold", "ovres", "fastainfo", "scref", "ffref", "ovref", "lref", "assembly") or (isinstance(ty[1], tuple) and ty[1][0] == "match")):
             return f"({term}).isSome"
         if isinstance(ty, tuple) and ty[0] == "opt" and ty[1] == "int":
             # `if g := a.gap_between(b):` — None and 0 are both false
@@ -930,6 +932,16 @@ class Kernel:
                 t, ty = self.expr(e.args[0], env, binds)
                 if ty == L("int"):
                     return f"(PyRt.sum {t})", "int"
+            if n == "Assembly" and len(e.args) == 1:
+                t, ty = self.expr(e.args[0], env, binds)
+                if ty != "str":
+                    raise Unsupported("Assembly(name) type")
+                return f"({{ name := {t} }} : Assembly)", "assembly"
+            if n == "merge_assemblies" and len(e.args) == 1 and self.spec.get("cli_kernels"):
+                t, ty = self.expr(e.args[0], env, binds)
+                nm = self.fresh("mk")
+                binds.append((nm, f"(merge_assemblies_imp {self.coerce(t, ty, L('assembly'))})", "assembly"))
+                return nm, "assembly"
             if n == "BytesIO" and not e.args:
                 return "({ data := [], pos := 0 } : PyRt.BytesIO)", "bytesio"
             if n == "FastaInfo" and len(e.args) == 4:
@@ -1155,6 +1167,8 @@ class Kernel:
                 b, tb = f"(getRes store {b})", "ovres"
             if tb == "ffref":
                 b, tb = f"(PyRt.getFound heap_ff {b})", "found"
+            if tb == O("str") and m == "lower":
+                nm = self.fresh(); binds.append((nm, f"(PyRt.needObj {b})", "str")); b, tb = nm, "str"      # None.lower(): AttributeError
             key = (tb if isinstance(tb, str) else "-", m)
             if key in IMPURE_METHOD:
                 argt, rty, tmpl = IMPURE_METHOD[key]
@@ -1172,6 +1186,8 @@ class Kernel:
                 return nm, ("set", "junction")
             if isinstance(tb, tuple) and tb[0] == "dict" and m == "get" and len(e.args) in (1, 2):
                 k, tk = self.expr(e.args[0], env, binds)
+                if tb[1] == O(tk) or (tk == "none" and isinstance(tb[1], tuple) and tb[1][0] == "opt"):
+                    k, tk = self.coerce(k, tk, tb[1]), tb[1]
                 if tk == O(tb[1]) and len(e.args) == 1:
                     return f"(match {k} with | some k => dGet? {b} k | none => none)", O(tb[2])      # no key is None
                 if tk != tb[1]:
@@ -1532,6 +1548,8 @@ class Kernel:
             d = tg.value.id
             td = env[d]
             k, tk = self.expr(tg.slice, env, binds)
+            if td[1] == O(tk) or (tk == "none" and isinstance(td[1], tuple) and td[1][0] == "opt"):
+                k, tk = self.coerce(k, tk, td[1]), td[1]
             if tk == O(td[1]):
                 nm = self.fresh(); binds.append((nm, f"(PyRt.needObj {k})", td[1])); k, tk = nm, td[1]     # (a None key cannot arise: see the tie)
             v, tv = self.expr(s.value, env, binds)
@@ -1887,6 +1905,10 @@ class Kernel:
                 v, tv = self.expr(c.args[0], env, binds)
                 row = self.coerce_elem(v, tv, "row")
                 return self.with_binds(binds, [self.let("heap_sc", L("scaffold"), f"PyRt.arenaAddRow heap_sc {r} {row}")] + self.block(rest, env, loop))
+            if isinstance(f.value, ast.Name) and env.get(f.value.id) == "assembly" and m == "add_scaffold" and len(c.args) == 1:
+                tgt = ast.Attribute(value=f.value, attr="scaffolds", ctx=ast.Load())
+                new_call = ast.Call(func=ast.Attribute(value=tgt, attr="append", ctx=ast.Load()), args=c.args, keywords=[])
+                return self.call_stmt(new_call, rest, env, loop)
             if isinstance(f.value, ast.Name) and env.get(f.value.id) == "scaffold" and m == "add_row" and len(c.args) == 1:
                 # Scaffold.add_row(row) is `self.rows.append(row)`
                 tgt = ast.Attribute(value=f.value, attr="rows", ctx=ast.Load())
@@ -1952,7 +1974,7 @@ class Kernel:
 
         def opt_obj(n):
             return isinstance(n, ast.Name) and isinstance(env.get(n.id), tuple) and env[n.id][0] == "opt" \
-                and (env[n.id][1] in ("frag", "gap", "row", "scaffold", "ovres", "fastainfo", "scref", "ffref", "ovref", "lref") or (isinstance(env[n.id][1], tuple) and env[n.id][1][0] == "match") or (isinstance(env[n.id][1], tuple) and env[n.id][1][0] == "tuple" and env[n.id][1][1]))
+                and (env[n.id][1] in ("frag", "gap", "row", "scaffold", "ovres", "fastainfo", "scref", "ffref", "ovref", "lref", "assembly") or (isinstance(env[n.id][1], tuple) and env[n.id][1][0] == "match") or (isinstance(env[n.id][1], tuple) and env[n.id][1][0] == "tuple" and env[n.id][1][1]))
         if isinstance(test, ast.UnaryOp) and isinstance(test.op, ast.Not) and opt_obj(test.operand):
             isnone = ast.Compare(left=ast.Name(id=test.operand.id, ctx=ast.Load()), ops=[ast.Is()], comparators=[ast.Constant(value=None)])
             return self.if_stmt(ast.If(test=isnone, body=s.body, orelse=s.orelse), rest, env, loop)
@@ -2471,6 +2493,14 @@ IMP_KERNELS_13 = [
          dict_roots={"self.breaks": "int", "self.joins": "int", "self.per_assembly_stats": ("dict", "str", ("dict", "str", "int"))}),
 ]
 
+CLI = "assembly/scripts/pretext_to_asm.py"
+ASM_DICT = ("dict", O("str"), "assembly")
+IMP_KERNELS_14 = [
+    dict(file=CLI, qual="merge_assemblies", lean="merge_assemblies_imp", params={"asm_list": L("assembly")}, returns="assembly", locals={"new": "assembly"}),
+    dict(file=CLI, qual="name_assemblies", lean="name_assemblies_imp", cli_kernels=True, params={"asm_dict": ASM_DICT, "root": "str", "version": "str"},
+         returns=ASM_DICT, locals={"ret_asm": ASM_DICT, "other_asm": L("assembly")}),
+]
+
 IMP_KERNELS = [
     dict(file="assembly/indexed_assembly.py", qual="IndexedAssembly.find_overlaps", lean="IndexedAssembly_find_overlaps",
          params={"bait": "frag"}, returns=O("ovres"), locals={"ovr": O("int")},
@@ -2502,7 +2532,7 @@ IMP_KERNELS = [
 def main():
     parts = ["/- GENERATED by harness/translate_imp.py from /repo/src — do not edit -/", "import AgpTpf.Model.PyRt", "import AgpTpf.Model.PyRtHeap", "import AgpTpf.Model.Lookup",
              "import AgpTpf.Model.Fasta", "import AgpTpf.Model.Text", "set_option linter.unusedVariables false", "namespace AgpTpf.Gen.Imp", "open AgpTpf", ""]
-    for spec in IMP_KERNELS + IMP_KERNELS_2 + IMP_KERNELS_3 + IMP_KERNELS_4 + IMP_KERNELS_5 + IMP_KERNELS_6 + IMP_KERNELS_7 + IMP_KERNELS_8 + IMP_KERNELS_9 + IMP_KERNELS_10 + IMP_KERNELS_11 + IMP_KERNELS_12 + IMP_KERNELS_13:
+    for spec in IMP_KERNELS + IMP_KERNELS_2 + IMP_KERNELS_3 + IMP_KERNELS_4 + IMP_KERNELS_5 + IMP_KERNELS_6 + IMP_KERNELS_7 + IMP_KERNELS_8 + IMP_KERNELS_9 + IMP_KERNELS_10 + IMP_KERNELS_11 + IMP_KERNELS_12 + IMP_KERNELS_13 + IMP_KERNELS_14:
         parts.append(translate(spec))
     parts.append("end AgpTpf.Gen.Imp\n")
     txt = "\n".join(parts)
